@@ -536,7 +536,7 @@ func (w *World) Compare(repo string, real Snap) []Diff {
 		d := Diff{Kind: "man", Key: mm.D, Want: wv, Got: gv}
 		if wv == "404" && gv == "ok" && w.k5Possible(m, mm.D) {
 			d.Known = "K5"
-			m.Mans[mm.D] = mm // adopt
+			m.Mans[mm.D] = mm      // adopt
 			m.Adopted[mm.D] = true // it exists only as a child of the index that lists it
 			delete(m.DelDig, mm.D)
 		} else if wv == "ok" && gv == "404" && w.k1Possible(m, mm.D) {
